@@ -82,6 +82,12 @@ META = {
                    'reachable from the selection through task_dep edges of the node-held Task objects or of the '
                    'initial table.  "The producer is eventually processed" (liveness half of targetOK) is a monitor '
                    'on every implementation trace.  '
+                   'Wave 5, extended system M1+X (created tasks with setup / calc_dep / getargs / wildcard edges): '
+                   'C15X_created_start_after_all_partial (a step that writes `start n` is a select_task on a node not '
+                   'marked bad, and for a task with setup-tasks it is the SECOND selection) and '
+                   'C15X_dispatcher_writes_only_creator are proved; the full ordering statement '
+                   'C15X_created_start_after_all_full is stated, not proved: it is evaluated by the driver on the '
+                   'accepting model run of every such case and by the monitor obeyOK on every implementation trace.  '
                    'The model is tied to doit on every run by trace acceptance.'),
     'level_note': ('created_obey is proved without extra hypotheses for the node-held Task objects and under noRedefB '
                    '(evaluated on every case: hyp:noredef) for TaskControl.tasks; self.tasks[nt.name] = nt has no '
@@ -102,9 +108,12 @@ META = {
              'model per run; '
              'creator variants (wave 4): the creator yields dicts | RETURNS one dict | a Task object | None | raises; '
              'bound-method creator; @task_params (default / value on the command line); executed = plain task | static '
-             'group | sub-task | delayed task | unknown task; created tasks with uptodate callables (modelled), setup / '
-             'calc_dep / getargs from a sub-task of the delayed group (outside M1+: monitors-only, counted as '
-             '`monitors-only(outside M1+):…`); '
+             'group | sub-task | delayed task | unknown task; created tasks with uptodate callables (modelled); '
+             'wave 5: created tasks with setup / calc_dep / getargs from a sub-task of the delayed group run K through '
+             'the extended model M1+X (Model/DelayedX.lean; counters `K:extended-model(M1+X):…`, `X:…`); only a '
+             'creator that raises stays monitors-only (`monitors-only(outside M1+):creator-raises`); '
+             'wave 6: two INSTANCES of one class exporting the same @create_after method (`twin_of`), created tasks '
+             'with a wildcard task_dep (expanded at creation time, repair 71e546b; M1+X); '
              'non-trivial = a creator was evaluated; distinct = distinct rendered case + schedule'),
     'assumptions': ['up-to-date status is produced by uptodate=[True] on a fresh DB with existing targets',
                     'process-mode runs are sampled'],
@@ -866,7 +875,7 @@ def gen_case(rng, runner=None, knobs=None):
                     y['utd'] = False
             y['fails'] = rng.random() < k.get('p_fail', 0.08)
         # attributes of created tasks: uptodate callable (modelled through the up-to-date oracle); setup, calc_dep,
-        # getargs (outside M1+: such cases run monitors-only)
+        # getargs (wave 5: inside the extended model M1+X, see `extended`)
         for j, y in enumerate(yields):
             if rng.random() < k.get('p_utd_fn', 0.15):
                 y['utd_fn'] = rng.random() < 0.6
